@@ -30,6 +30,9 @@ func checkC04(r *Report, p *Program) {
 	claimKeepTable(r, p, "R04.8")
 	// a revision the controller creates matches the selector it claims revisions with (shared with C09)
 	revisionLabelsAgree(r, p, "R04.9")
+	benignMeansNil(r, p, "R04.10")
+	canAdoptTable(r, p, "R04.11")
+	claimToleranceConverse(r, p, "R04.12")
 }
 
 // listersListEverything: the controllers list their caches unfiltered and leave the
